@@ -1,16 +1,19 @@
-(* Determinism engine (C04): every HashMap iteration of the encode path is order-free, except ModuleTypes::new.
+(* Determinism engine (C04): every HashMap iteration of the encode path is order-free.
 
    1. resolve_on_end's inner map (keys Before / After): [ron_modes_commute], [ron_entries_permutation],
       [ron_any_order]  -- Lowering.resolve_pend2 (order Before, After) equals the loop run in any order.
    2. resolve_on_else_or_end has one key: [roe_single_key].
    3. the id maps are only looked up: [mapping_lookup_order_free].
-   4. types_map: [types_map_order] (no structurally equal types -> same dedup function, same ids),
-      [types_map_order_at] / [types_map_order_seq] (the exact D11 boundary: a requested type that the input has at
-      most once gets the same id under every order), [types_map_order_refuted] (D11 witness).
+   4. types_map.  Since the repair of D11 ModuleTypes::new sorts the keys before inserting: [sort_ids_canonical]
+      (every visiting order sorts to the ascending list) and [types_map_order] (hence the same dedup map, the same ids
+      and the same emitted types under any two visiting orders -- unconditionally).  History: for the unsorted
+      insertion of the pre-repair code, [types_map_order_at] / [types_map_order_seq] (a requested type that the input
+      has at most once gets the same id under every order) and [types_map_order_history] (it did not for a type the
+      input has twice -- D11 -- and does now).
    5. the inventory obligation: the hand-written classification of Model/HashIterSites.v lists exactly the
-      iteration sites / hash-typed declarations / other sources regenerated from /repo/src.
+      iteration sites / hash-typed declarations / other sources regenerated from /repo/src; none is order-dependent.
    6. checker soundness. *)
-From Coq Require Import List Arith NArith Bool Lia Permutation.
+From Coq Require Import List Arith NArith Bool Lia Permutation Sorted.
 Import ListNotations.
 From Orca Require Import Util Flat Lowering Types CheckTypes TypesProofs HashOrder CheckDeterm.
 From Orca Require Reindex ReidxProofs.
@@ -158,7 +161,8 @@ Theorem mapping_lookup_order_free l m' :
 Proof. intros HP k. symmetry. apply lookup_perm; [exact HP|apply mapping_keys_nodup]. Qed.
 
 (* ------------------------------------------------------------------------------------------ *)
-(* 4. types_map *)
+(* 4. types_map -- first the facts about an arbitrary (unsorted) insertion order, which is what the code did before the
+   repair of D11; the repaired code is 4b *)
 
 (* every entry of the dedup map names an id that was visited and holds that type *)
 Definition map_from (types : list ctype) (ids : list N) (m : list (ctype * N)) : Prop :=
@@ -269,47 +273,117 @@ Proof.
   split; [exact Hids|]. unfold emit_types. rewrite Hg, Ht. reflexivity.
 Qed.
 
-(* the form asked for: no two structurally equal types in the input -> the two dedup maps are extensionally the same
-   lookup function, and add_type returns the same id (and the same types / groups) for every request *)
-Theorem types_map_order types o1 o2 :
+(* before the repair: no two structurally equal types in the input -> the two dedup maps are extensionally the same
+   lookup function (superseded by [types_map_order] below, kept as the general fact about unsorted insertion) *)
+Theorem types_map_unsorted_order types o1 o2 :
   same_visits o1 o2 -> no_equal_types types ->
-  (forall t, lookup_map t (build_map types o1) = lookup_map t (build_map types o2))
-  /\ (forall groups ty,
-        fst (add_type ty (mkTS groups types (build_map types o1))) = fst (add_type ty (mkTS groups types (build_map types o2)))
-        /\ ts_types (snd (add_type ty (mkTS groups types (build_map types o1))))
-           = ts_types (snd (add_type ty (mkTS groups types (build_map types o2))))
-        /\ ts_groups (snd (add_type ty (mkTS groups types (build_map types o1))))
-           = ts_groups (snd (add_type ty (mkTS groups types (build_map types o2))))).
+  forall t, lookup_map t (build_map types o1) = lookup_map t (build_map types o2).
+Proof. intros HS HN t. apply types_map_order_at; [exact HS|apply HN]. Qed.
+
+(* ------------------------------------------------------------------------------------------ *)
+(* 4b. the repaired ModuleTypes::new: keys collected in hash order [o], sorted, inserted in ascending order *)
+
+Lemma ins_id_perm x : forall l, Permutation (x :: l) (ins_id x l).
 Proof.
-  intros HS HN.
-  assert (HL : forall t, lookup_map t (build_map types o1) = lookup_map t (build_map types o2)).
-  { intros t. apply types_map_order_at; [exact HS|apply HN]. }
-  split; [exact HL|]. intros groups ty.
-  assert (He : st_equiv_on (fun _ => True) (mkTS groups types (build_map types o1)) (mkTS groups types (build_map types o2))).
-  { split; [reflexivity|]. split; [reflexivity|]. intros t _. apply HL. }
-  destruct (add_type_equiv _ ty _ _ He I) as [Hid (Hg & Ht & _)].
-  split; [exact Hid|]. split; [exact Ht|exact Hg].
+  induction l as [|y l IH]; cbn [ins_id]; [apply Permutation_refl|].
+  destruct (N.leb x y); [apply Permutation_refl|].
+  apply (perm_trans (perm_swap y x l)). apply perm_skip. exact IH.
+Qed.
+Lemma sort_ids_perm : forall l, Permutation l (sort_ids l).
+Proof.
+  induction l as [|x l IH]; [apply perm_nil|]. unfold sort_ids. cbn [fold_right].
+  apply (perm_trans (l' := x :: sort_ids l)); [apply perm_skip; exact IH|apply ins_id_perm].
+Qed.
+Lemma ins_id_sorted x : forall l, StronglySorted N.le l -> StronglySorted N.le (ins_id x l).
+Proof.
+  induction l as [|y l IH]; intros H; cbn [ins_id].
+  - constructor; constructor.
+  - apply StronglySorted_inv in H. destruct H as [Hs Hf].
+    destruct (N.leb x y) eqn:E.
+    + apply N.leb_le in E. constructor; [constructor; assumption|].
+      constructor; [exact E|]. apply (Forall_impl (P := N.le y)); [|exact Hf]. intros z Hz. lia.
+    + apply N.leb_gt in E. constructor; [apply IH; exact Hs|].
+      apply (Permutation_Forall (ins_id_perm x l)). constructor; [lia|exact Hf].
+Qed.
+Lemma sort_ids_sorted : forall l, StronglySorted N.le (sort_ids l).
+Proof.
+  induction l as [|x l IH]; [constructor|]. unfold sort_ids. cbn [fold_right]. apply ins_id_sorted. exact IH.
+Qed.
+Lemma sorted_perm_unique : forall l l',
+  StronglySorted N.le l -> StronglySorted N.le l' -> Permutation l l' -> l = l'.
+Proof.
+  induction l as [|a t IH]; intros l' Hs Hs' HP.
+  - apply Permutation_nil in HP. symmetry. exact HP.
+  - destruct l' as [|b t']; [apply Permutation_sym, Permutation_nil in HP; discriminate|].
+    apply StronglySorted_inv in Hs. destruct Hs as [Hst Hfa].
+    apply StronglySorted_inv in Hs'. destruct Hs' as [Hst' Hfb].
+    rewrite Forall_forall in Hfa, Hfb.
+    assert (Hba : (b <= a)%N).
+    { assert (Hin : In a (b :: t')) by (apply (Permutation_in _ HP); left; reflexivity).
+      destruct Hin as [->|Hin]; [lia|apply Hfb; exact Hin]. }
+    assert (Hab : (a <= b)%N).
+    { assert (Hin : In b (a :: t)) by (apply (Permutation_in _ (Permutation_sym HP)); left; reflexivity).
+      destruct Hin as [->|Hin]; [lia|apply Hfa; exact Hin]. }
+    assert (E : a = b) by lia. subst b. f_equal. apply IH; [exact Hst|exact Hst'|].
+    apply (Permutation_cons_inv HP).
+Qed.
+Lemma ids_from_ge : forall n first x, In x (Types.ids_from first n) -> (first <= x)%N.
+Proof.
+  induction n as [|n IH]; intros first x H; [destruct H|].
+  cbn [Types.ids_from] in H. destruct H as [<-|H]; [lia|]. specialize (IH _ _ H). lia.
+Qed.
+Lemma ids_from_sorted : forall n first, StronglySorted N.le (Types.ids_from first n).
+Proof.
+  induction n as [|n IH]; intros first; cbn [Types.ids_from]; constructor; [apply IH|].
+  apply Forall_forall. intros x Hx. apply ids_from_ge in Hx. lia.
 Qed.
 
-(* D11: with two structurally equal types in the input, two iteration orders answer the same request with different
-   ids (the base of Props/C13.v's C13_ex_hash_order: `(i32) -> ()` at ids 0 and 2) *)
+(* `types.keys()` visits the ids 0 .. n-1 in some order [o]; after `ids.sort_unstable()` the list is the ascending one,
+   whatever [o] was *)
+Theorem sort_ids_canonical n o : Permutation o (asc_ids n) -> sort_ids o = asc_ids n.
+Proof.
+  intros HP. apply sorted_perm_unique; [apply sort_ids_sorted|apply ids_from_sorted|].
+  apply (perm_trans (Permutation_sym (sort_ids_perm o)) HP).
+Qed.
+
+(* UNCONDITIONAL (no hypothesis on structurally equal types): under any two visiting orders of the keys the repaired
+   ModuleTypes::new builds the same dedup map -- the one of the ascending order --, so every add_type returns the same
+   id and leaves the same state, and so does every sequence of additions *)
+Theorem types_map_order types o1 o2 :
+  Permutation o1 (asc_ids (length types)) -> Permutation o2 (asc_ids (length types)) ->
+  build_map_sorted types o1 = build_map_sorted types o2
+  /\ build_map_sorted types o1 = build_map types (asc_ids (length types))
+  /\ (forall groups ty, add_type ty (mkTS groups types (build_map_sorted types o1))
+                        = add_type ty (mkTS groups types (build_map_sorted types o2)))
+  /\ (forall groups ops, api_run ops (mkTS groups types (build_map_sorted types o1))
+                         = api_run ops (mkTS groups types (build_map_sorted types o2))).
+Proof.
+  intros H1 H2. unfold build_map_sorted. rewrite (sort_ids_canonical _ _ H1), (sort_ids_canonical _ _ H2).
+  repeat split; reflexivity.
+Qed.
+
+(* history of D11 on the base of Props/C13.v's C13_ex_hash_order (`(i32) -> ()` at ids 0 and 2): inserting in the
+   visiting order itself, two orders answered the same request with different ids; with the keys sorted first both
+   answer with the highest id *)
 Definition d11_F (ps rs : list N) := mkT 0 ps rs None true false.
 Definition d11_base : tgroups :=
   [(false, [d11_F [0%N] []]); (true, [mkT 2 [0%N; 20%N] [1%N; 0%N] None false false; d11_F [0%N] []]); (true, []);
    (false, [mkT 2 [0%N; 20%N] [1%N; 0%N] (Some 1%N) false false])].
-Theorem types_map_order_refuted :
+Theorem types_map_order_history :
   exists (base : tgroups) o1 o2 ty,
-    same_visits o1 o2
+    Permutation o1 (asc_ids (length (flat base))) /\ Permutation o2 (asc_ids (length (flat base)))
     /\ ~ at_most_once ty (flat base)
+    (* before the repair *)
     /\ fst (add_type ty (parse_types base o1)) <> fst (add_type ty (parse_types base o2))
-    /\ emit_types (snd (add_type ty (parse_types base o1))) = emit_types (snd (add_type ty (parse_types base o2))).
+    (* after the repair *)
+    /\ fst (add_type ty (parse_types base (sort_ids o1))) = 2%N
+    /\ fst (add_type ty (parse_types base (sort_ids o2))) = 2%N
+    /\ parse_types base (sort_ids o1) = parse_types_asc base.
 Proof.
   exists d11_base, [0; 1; 2; 3]%N, [3; 2; 1; 0]%N, (d11_F [0%N] []).
-  split; [|split; [|split]].
-  - intros id. cbn [In]. intuition.
-  - intros H. specialize (H 0%nat 2%nat eq_refl eq_refl). discriminate.
-  - vm_compute. discriminate.
-  - vm_compute. reflexivity.
+  split; [apply Permutation_refl|]. split; [apply Permutation_sym; apply (Permutation_rev [0; 1; 2; 3]%N)|].
+  split; [intros H; specialize (H 0%nat 2%nat eq_refl eq_refl); discriminate|].
+  split; [vm_compute; discriminate|]. repeat split; vm_compute; reflexivity.
 Qed.
 
 (* ------------------------------------------------------------------------------------------ *)
@@ -321,8 +395,8 @@ Theorem hashiter_decls_covered : hash_decls_reviewed = gen_hash_decls.
 Proof. vm_compute. reflexivity. Qed.
 Theorem hashiter_no_other_source : gen_other_sources = other_sources_reviewed /\ other_sources_reviewed = [].
 Proof. split; vm_compute; reflexivity. Qed.
-(* the only order-dependent iteration is the one of class D11 *)
-Theorem hashiter_order_dependent_is_D11 : order_dependent_classes = [11%N].
+(* no iteration is order-dependent any more (before the repair of D11: [11]) *)
+Theorem hashiter_no_order_dependent : order_dependent_classes = [].
 Proof. vm_compute. reflexivity. Qed.
 Corollary hashiter_site_has_status : forall s, In s gen_hash_sites <-> exists st, In (s, st) hash_site_status.
 Proof.
@@ -332,8 +406,9 @@ Proof.
 Qed.
 
 (* ------------------------------------------------------------------------------------------ *)
-(* 5b. the class predicate of the checker is the hypothesis of [types_map_order_seq], on tokens: outside D11 every
-   requested type occurs at most once in the input's type section *)
+(* 5b. history: the former class predicate (still reported by the harness as a statistic) is the hypothesis of
+   [types_map_order_seq], on tokens: outside the former D11 class every requested type occurs at most once in the input's
+   type section *)
 Local Open Scope N_scope.
 Lemma count_tok_pos t : forall l i, nth_error l i = Some t -> 1 <= count_tok t l.
 Proof.
@@ -377,15 +452,10 @@ Proof.
   intros a b Ha Hb. rewrite (E a Ha), (E b Hb). reflexivity.
 Qed.
 
-(* predicted deterministic + agreement -> every pair of processes produced the same status and the same hash *)
+(* agreement with the (constant) prediction = every pair of processes produced the same status and the same hash *)
 Theorem checker04_sound c :
-  agree04 c = true -> known_D11 c = false ->
-  holds04 c = true /\ forall a b, In a (dc_obs c) -> In b (dc_obs c) -> a = b.
-Proof.
-  unfold agree04, predicted_deterministic. intros Ha Hk. rewrite Hk in Ha. cbn [negb] in Ha.
-  split; [exact Ha|]. apply all_equal_spec. exact Ha.
-Qed.
-(* a failing case is reported as unlisted exactly when it is outside D11 *)
-Theorem no_unlisted_failure_inside_model c :
-  domain04 c = true -> holds04 c = false -> known_D11 c = false -> agree04 c = false.
-Proof. unfold agree04, predicted_deterministic. intros _ Hh Hk. rewrite Hk. cbn [negb]. exact Hh. Qed.
+  agree04 c = true -> holds04 c = true /\ forall a b, In a (dc_obs c) -> In b (dc_obs c) -> a = b.
+Proof. unfold agree04, predicted_deterministic. intros Ha. split; [exact Ha|]. apply all_equal_spec. exact Ha. Qed.
+(* every failing case is a mismatch: there is no known class that could excuse it *)
+Theorem no_unlisted_failure_inside_model c : holds04 c = false -> agree04 c = false /\ snd (verdict04 c) = [].
+Proof. unfold agree04, predicted_deterministic, verdict04. intros Hh. split; [exact Hh|reflexivity]. Qed.
